@@ -111,6 +111,7 @@ def run(tier, seed):
                 one(chk, s, const)
             continue
         verify(chk, text, sheets, plan)
+    text_format_law(chk)
     titles(chk, strings, rng)
     facade(chk, strings, rng)
     if canary_set():
@@ -178,6 +179,30 @@ def verify(chk, text, sheets, plan, cols=None):
             if not (isinstance(body, ast.Constant) and body.value == want):
                 chk.violation({'why': 'the member of a constant / plain literal is not exactly one string constant', 'string': repr(want),
                                'ast': ast.dump(body)[:200] if body is not None else None, 'stream': 'inert'})
+
+
+def text_format_law(chk):
+    """field syntax of Python's str.format / % / f-strings written in the format argument of TEXT (a literal or a referenced text cell) is never interpreted"""
+    probes = ['0.0 {0.__class__.__name__}', '{0.real.__class__.__mro__}', '0 {}', '{0!r}', '{0:>10}', '%(x)s', '{self}', '0.00{{}}', '{0.__class__.__init__.__globals__}']
+    Cell = realcode.mods()['Cell']
+    rows = [[p, '=TEXT(2.5,%s)' % excel_literal(p), '=TEXT(7,A%d)' % (i + 1)] for i, p in enumerate(probes)]
+    try:
+        ex = realcode.executor_for(realcode.load_class(realcode.translate([('S', rows)])))
+    except Exception as e:  # noqa
+        if core.exc_class(e) not in ('Parser', 'Cell'):
+            chk.violation({'why': 'TEXT with field syntax in its format does not translate', 'impl': 'E' + core.exc_class(e), 'stream': 'text-format'})
+        return
+    leaks = ('float', 'int', 'class', 'object', 'ExcelInPython', 'globals', 'builtins')
+    for i, p in enumerate(probes):
+        for c in (1, 2):
+            got = core.outcome(lambda: ex.get_cell(Cell(0, c, i)).value)
+            chk.count('law:text-format')
+            chk.seen(('text-format', p, c))
+            val = core.dec(got) if not got.startswith('E') else None
+            leaked = isinstance(val, str) and any(w in val and w not in p for w in leaks)
+            if got.startswith('E') and got[1:] in ('ValueError', 'KeyError', 'IndexError', 'AttributeError', 'TypeError') or leaked:
+                chk.violation({'why': 'field syntax in the format text of TEXT is interpreted (str.format): workbook text acts as code', 'format': p, 'formula': rows[i][c],
+                               'impl': got if val is None else repr(val)[:200], 'stream': 'text-format'})
 
 
 def titles(chk, strings, rng):
